@@ -13,7 +13,7 @@ ID = 'C14'
 
 MANIFEST = {
     'engine': 'symx',
-    'text': 'Bounded symbolic model checking of the real HyperLogLogWCache source on a scaled-down instance (the class keeps p, m, warmup_size and width on the instance; the harness records the real constants and re-scales them to p in {2,3}): the insertion sequence (which item at each step) and the 32-bit hash of every distinct item are symbolic; z3/the path explorer shows after every prefix that len == #distinct while #distinct <= warm-up capacity, that re-adding a seen item never changes len (before, at and after the switch to registers), that len in the exact range is order-independent, and that the registers after the switch are a function of the set inserted.',
+    'text': 'Bounded symbolic model checking of the real HyperLogLogWCache source on a scaled-down instance (the class keeps p, m, warmup_size and width on the instance; the harness records the real constants and re-scales them to p in {2,3}): the insertion sequence (which item at each step) and the 32-bit hash of every distinct item are symbolic; z3/the path explorer shows after every prefix that len == #distinct while #distinct <= warm-up capacity, that re-adding a seen item never changes len (before, at and after the switch to registers), that len in the exact range is order-independent, and that the registers after the switch are a function of the set inserted. The hash object is modelled as streaming (several updates hash the concatenation), hash values may collide, and a counterexample that needs a 32-bit collision is replayed with real strings whose xxh32 digests collide.',
     'note': 'Scaled instance: same code, smaller constants (capacity 2 or 4 instead of 2^18); xxhash replaced by an arbitrary function item -> 32-bit value; the clause "within 2% up to 2^21 distinct values" is statistical (a probabilistic statement over the hash, false for adversarial multisets) and is NOT covered.',
     'technique': 'symbolic execution of the real Python source with z3 on a re-scaled instance; hash values as unconstrained 32-bit integers',
 }
